@@ -53,8 +53,8 @@ Fixpoint spec_step (o : op) (v : value) (sep : str) {struct o} : outcome (value 
   | Filter p => omap (fun v' => (v', sep)) (spec_filter true p v)
   | FilterNot p => omap (fun v' => (v', sep)) (spec_filter false p v)
   | Sort Asc => list_only v sort_asc sep
-  | Sort Desc => list_only v (fun l => rev (sort_asc l)) sep
-  | Reverse => Ok (match v with VStr s => VStr (rev s) | VList l => VList (rev l) end, sep)
+  | Sort Desc => list_only v (fun l => frev (sort_asc l)) sep
+  | Reverse => Ok (match v with VStr s => VStr (frev s) | VList l => VList (frev l) end, sep)
   | Unique => list_only v unique sep
   | Substring r => str_only v (select r) sep
   | Replace pat repl flags =>
@@ -99,3 +99,13 @@ Fixpoint spec_steps (ops : list op) (v : value) (sep : str) : outcome str :=
 Definition spec_run (ops : list op) (x : str) : outcome str := spec_steps ops (VStr x) default_sep.
 
 End Spec.
+
+(* separator bookkeeping, computed from the pipeline alone *)
+Definition sep_after (o : op) (sep : str) : str :=
+  match o with Split sp _ => sp | Join sp => sp | _ => sep end.
+Fixpoint last_sep_from (sep : str) (ops : list op) : str :=
+  match ops with [] => sep | o :: ops' => last_sep_from (sep_after o sep) ops' end.
+(* the separator of the most recent split or join, " " when there is none:
+   computed from the pipeline text alone *)
+Definition last_sep (ops : list op) : str := last_sep_from default_sep ops.
+
